@@ -9,6 +9,7 @@ import FunModel.Drv.C05
 import FunModel.Drv.C06
 import FunModel.Drv.C03
 import FunModel.Drv.C10
+import FunModel.Drv.C15
 
 /-! Line-protocol driver: `driver <property>` reads one S-expression per line on stdin and prints
     the model's observation for it on one line. Core Lean only (no Mathlib) so it links. -/
@@ -30,6 +31,7 @@ def handlerFor : String → Option (Sexp → String)
   | "C07" => some DrvC05.handle
   | "C20" => some DrvC05.handle
   | "C17" => some DrvC16.handle
+  | "C15" => some DrvC15.handle
   | _ => none
 
 partial def loop (h : IO.FS.Stream) (out : IO.FS.Stream) (f : Sexp → String) : IO Unit := do
